@@ -289,6 +289,10 @@ def check_c15(ctx, job, top):
                 mtype.get("restype_override", {}).get(nd["resname"]) or spec["restypes"].get(nd["resname"])
             # (a residue that carries the name of a user template but lacks some of its atoms is another residue type)
             is_user = nd["resname"] in user_templates and set(names) == set(user_templates[nd["resname"]])
+            if not is_user and any(set(names) == set(ut) for ut in user_templates.values()):
+                # another residue NAME with the same labelled graph has a user template: polyply (rightly) uses it for
+                # this residue as well; its geometry is the user's, not an optimised one
+                continue
             if is_user:
                 ut = user_templates[nd["resname"]]
                 uarr = {k: np.array(v, dtype=float) for k, v in ut.items()}
